@@ -293,6 +293,22 @@ func (ex *Exec) doInvoke(s *State, instr ssa.Instruction, c *ssa.CallCommon, res
 	ex.panicObl(s, instr, "nilderef", Not(Eq(ITag(recv), IntLit(0))))
 	iface := it.Underlying().(*types.Interface)
 	impls := ex.implementers(iface)
+	if len(impls) == 0 && ex.con != nil && ex.con.OpaqueCalls {
+		// `opaquecalls`: a method of an external interface without a model
+		// yields unconstrained results (listener set-up and Accept)
+		ex.usedAssume["A-OPAQUECALL: in "+ex.key+" the call of "+typeKey(it)+"."+c.Method.Name()+" yields unconstrained results and does not modify the objects the contract speaks about"] = true
+		sig := c.Signature()
+		var rv Val
+		switch sig.Results().Len() {
+		case 0:
+		case 1:
+			rv = ex.freshVal(s, sig.Results().At(0).Type(), "oc")
+		default:
+			rv = ex.freshVal(s, sig.Results(), "oc")
+		}
+		ex.finishCall(s, instr, res, stay, rv)
+		return nil
+	}
 	if len(impls) == 0 {
 		ex.fail("invoke %s.%s: no implementers", it, c.Method.Name())
 	}
